@@ -361,3 +361,33 @@ impl Vis {
     #[verifier::external_body]
     fn visit_f32(self, x: f32) -> (r: Result<VisVal, Error>) ensures r == vis_f32(self, x), { unimplemented!() }
 }
+/// `visitor.visit_newtype_struct(SpannedDeser { de, referenced, defined, state: 0 })`: the wrapped value is read from `de`
+/// (untouched up to here), the two locations are handed on as they are
+#[verifier::external_body]
+fn visit_spanned<'de, 'e>(visitor: Vis, de: YamlDeserializer<'de, 'e>, referenced: Location, defined: Location) -> Result<VisVal, Error> { unimplemented!() }
+// ---- Spanned<T>: the seeds serde hands to the synthetic struct view (opaque; results are uninterpreted functions of what they are given) ----
+uninterp spec fn field_name_seed_result(seed: ElemSeed, name: Seq<char>) -> Result<Option<ElemVal>, Error>;
+uninterp spec fn location_seed_result(seed: ElemSeed, l: Location) -> Result<ElemVal, Error>;
+uninterp spec fn wrapped_value_seed_result<'de>(seed: ElemSeed, rest: Seq<Ev<'de>>, cfg: Cfg) -> Result<ElemVal, Error>;
+/// `seed.deserialize(key.into_deserializer()).map(Some)`
+#[verifier::external_body]
+fn seed_on_field_name(seed: ElemSeed, key: &str) -> (r: Result<Option<ElemVal>, Error>) ensures r == field_name_seed_result(seed, key@), { unimplemented!() }
+/// `seed.deserialize(LocationDeser { location })`
+#[verifier::external_body]
+fn seed_on_location(seed: ElemSeed, location: Location) -> (r: Result<ElemVal, Error>) ensures r == location_seed_result(seed, location), { unimplemented!() }
+/// `seed.deserialize(Deserializer::new(&mut *ev, cfg))`
+#[verifier::external_body]
+fn seed_on_wrapped_value<'de>(seed: ElemSeed, ev: &mut dyn Events<'de>, cfg: Cfg) -> (r: Result<ElemVal, Error>) ensures r == wrapped_value_seed_result(seed, old(ev).rest(), cfg), { unimplemented!() }
+/// `Error::msg(text)`
+#[verifier::external_body]
+fn error_msg(text: &str) -> (r: Error) ensures !(r is IOError), { unimplemented!() }
+uninterp spec fn u32_seed_result(seed: ElemSeed, v: u32) -> Result<ElemVal, Error>;
+uninterp spec fn u64_seed_result(seed: ElemSeed, v: u64) -> Result<ElemVal, Error>;
+uninterp spec fn u64_some_seed_result(seed: ElemSeed, v: u64) -> Result<Option<ElemVal>, Error>;
+uninterp spec fn span_seed_result(seed: ElemSeed, s: Span) -> Result<ElemVal, Error>;
+uninterp spec fn byte_info_seed_result(seed: ElemSeed, b: (SpanIndex, SpanIndex)) -> Result<ElemVal, Error>;
+#[verifier::external_body] fn seed_on_u32(seed: ElemSeed, v: u32) -> (r: Result<ElemVal, Error>) ensures r == u32_seed_result(seed, v), { unimplemented!() }
+#[verifier::external_body] fn seed_on_u64(seed: ElemSeed, v: u64) -> (r: Result<ElemVal, Error>) ensures r == u64_seed_result(seed, v), { unimplemented!() }
+#[verifier::external_body] fn seed_on_u64_some(seed: ElemSeed, v: u64) -> (r: Result<Option<ElemVal>, Error>) ensures r == u64_some_seed_result(seed, v), { unimplemented!() }
+#[verifier::external_body] fn seed_on_span(seed: ElemSeed, s: Span) -> (r: Result<ElemVal, Error>) ensures r == span_seed_result(seed, s), { unimplemented!() }
+#[verifier::external_body] fn seed_on_byte_info(seed: ElemSeed, b: (SpanIndex, SpanIndex)) -> (r: Result<ElemVal, Error>) ensures r == byte_info_seed_result(seed, b), { unimplemented!() }
